@@ -42,3 +42,10 @@ Proof.
   rewrite E in H. destruct (level_of gen_tables (hm_func hm)) as [lv|]; [|discriminate H].
   apply andb_true_iff in H. destruct H as [H _]. apply Z.eqb_eq in H. congruence.
 Qed.
+
+(* the regenerated decision of prepare() is the specified one; "valid" (the header verifies) implies a header *)
+Lemma grant_ok : forall present valid admin_empty tl,
+  (valid = true -> present = true) -> grant present valid admin_empty tl = grant_spec present valid admin_empty tl.
+Proof.
+  intros p v a tl H. destruct p, v, a; try reflexivity; exfalso; specialize (H eq_refl); discriminate H.
+Qed.
